@@ -3,9 +3,11 @@
 run the quick check of the property it breaks (plus any extra checks given in EXTRA), undo.
 Writes seeded/<id>/checks.json.  usage: seeded_matrix.py [id ...]"""
 import json, os, subprocess, sys, glob, re, time
-EXTRA = {"C02-A": ["C08"], "C02-B": ["C08"], "C06-A": ["C07"], "C11-A": ["C02"], "C03-A": ["C02"], "C04-A": ["C02"]}
+EXTRA = {"C01-C": ["C14"], "C02-C": ["C04"], "C02-A": ["C08"], "C02-B": ["C08"], "C06-A": ["C07"], "C11-A": ["C02"], "C03-A": ["C02"], "C04-A": ["C02"]}
 ids = sys.argv[1:] or sorted(os.path.basename(d) for d in glob.glob('/verif/seeded/C*'))
-env = dict(os.environ, GOSYM_BUDGET=os.environ.get("GOSYM_BUDGET", "300"))
+# the engine is pointed at a copy of /verif so that these runs do not overwrite the committed evidence and replays
+subprocess.run("rsync -a --delete --exclude .git --exclude replays /verif/ /tmp/verifcopy_matrix/", shell=True, check=True)
+env = dict(os.environ, GOSYM_BUDGET=os.environ.get("GOSYM_BUDGET", "300"), GOSYM_VERIF="/tmp/verifcopy_matrix")
 for sid in ids:
     d = f'/verif/seeded/{sid}'
     prop = sid.split('-')[0]
